@@ -49,7 +49,7 @@ var errIssuer = errors.New("issuer failure")
 // Run, Ready and GetX509SVID are first called from three goroutines in any order: once the initial fetch finished
 // they all return; GetX509SVID gives the SVID iff the fetch succeeded.
 //
-//verif:harness prop=C19 name=ready_order threads=4 preempt=3 unwind=10 witness=lenient
+//verif:harness prop=C19 name=ready_order threads=4 sched=delay preempt=3 t_preempt=4 unwind=10 witness=lenient
 func VerifReadyOrder() {
 	vKeys = nil
 	fail := zzverif.Bool("initial_fetch_fails")
